@@ -797,6 +797,54 @@ func (c *Ctx) statusRetryShape(prefix string) {
 	}
 	c.Check(inLit && refreshed, prefix+"-status-write-retries", "UpdateStatefulSetStatus", retry.Pos(), "UpdateStatus sits in the RetryOnConflict closure and a failed attempt continues from a deep copy of the re-read set",
 		"the status write does not retry from a fresh copy")
+	// every attempt applies the computed status to the object it sends: inside the closure, the write is
+	// reachable only through `X.Status = *status` for the object X that is sent
+	if lit != nil {
+		lfn, _ := c.LitAnalysis(info, lit, "UpdateStatefulSetStatus$lit")
+		var statusParam *ast.Ident
+		for _, pf := range fi.Decl.Type.Params.List {
+			for _, pn := range pf.Names {
+				if isNamed(info.TypeOf(pn), load.APIPkg, "StatefulSetStatus") {
+					statusParam = pn
+				}
+			}
+		}
+		for _, s := range c.G.Sites {
+			if s.InLit != lit || s.Class != "write" {
+				continue
+			}
+			sent := s.Call.Args[1]
+			var apply ast.Node
+			ast.Inspect(lit.Body, func(n ast.Node) bool {
+				if as, ok := n.(*ast.AssignStmt); ok && len(as.Lhs) == 1 && len(as.Rhs) == 1 && statusParam != nil {
+					if lfn.Term(as.Lhs[0]).Key() == c.WantTerm(lfn, as.Pos(), "$1.Status", sent).Key() && lfn.Term(as.Rhs[0]).Key() == c.WantTerm(lfn, as.Pos(), "*$1", statusParam).Key() {
+						apply = as
+					}
+				}
+				return true
+			})
+			okApply := false
+			if apply != nil {
+				aU := lfn.FromUntil(lit.Body.List[0], gf.TrueState(), apply)
+				okApply = !aU.StateAtExpr(s.Call).Reachable()
+			}
+			c.Check(okApply, prefix+"-status-payload-applied-on-every-attempt", "UpdateStatefulSetStatus$lit: "+s.Resource+"."+s.Verb, s.Call.Pos(),
+				"each attempt (also after a refresh) assigns the computed status to the object it sends", "a retry can send an object whose status was not set from the computed status (the write becomes a no-op and the stale status stays)")
+		}
+	}
+	// the updater's effect set: the status write and a cached refresh only (no uncached read that could defeat the
+	// optimistic-concurrency check the retry relies on)
+	effs := c.G.Effects(fi.Obj)
+	var ks []string
+	for k, st := range effs {
+		if st.Class == "queue" {
+			continue
+		}
+		ks = append(ks, st.Class+":"+k)
+	}
+	sort.Strings(ks)
+	c.Check(strings.Join(ks, " ") == "cached-read:statefulsets.Get write:statefulsets.pingcap.UpdateStatus", prefix+"-status-updater-effects", "UpdateStatefulSetStatus transitive effects", fi.Decl.Pos(),
+		"exactly {UpdateStatus, cached Get}", "the status updater's effect set is {"+strings.Join(ks, " ")+"}: a status computed from an older view can be forced onto a newer object")
 	// the closure's result is what the function returns
 	ret := false
 	if p := pathTo(fi.Decl.Body, retry); len(p) >= 2 {
